@@ -364,6 +364,7 @@ func App(sort Sort, f string, args ...Term) Term {
 
 const prelude = `(declare-datatypes ((Slice 0)) (((mk-slice (s-base Int) (s-off Int) (s-len Int) (s-cap Int)))))
 (declare-datatypes ((Iface 0)) (((mk-iface (i-tag Int) (i-val Int)))))
+(define-fun subref ((p Int) (i Int)) Int (- (+ (* 1024 (ite (>= p 0) p (- p))) i)))
 (define-fun godiv ((a Int) (b Int)) Int (ite (>= a 0) (ite (> b 0) (div a b) (- (div a (- b)))) (ite (> b 0) (- (div (- a) b)) (div (- a) (- b)))))
 (define-fun gomod ((a Int) (b Int)) Int (- a (* b (godiv a b))))
 (define-fun wrap64 ((x Int)) Int (- (mod (+ x 9223372036854775808) 18446744073709551616) 9223372036854775808))
